@@ -447,6 +447,23 @@ class DataFileManager:
         table_path = self.file_manager.table_path
         return os.path.join(table_path, path.lstrip("/"))
 
+    def _refuse_table_root(self, file_path: str, arrow_path: str) -> None:
+        """A data file cannot be the table root itself.
+
+        DataFileWriter creates its temporary file in dirname(target); for a
+        path that resolves to the root ('', '/', '.', 'data/..', or the root's
+        own absolute path) that is the root's PARENT directory - outside the
+        table.
+        """
+        if (
+            isinstance(self.storage, LocalStorageBackend)
+            and arrow_path == self.storage._real_base_path()
+        ):
+            raise ValueError(
+                f"Security Error: path '{file_path}' resolves to the table root itself; "
+                f"refusing to write (the temporary file would be created outside the table root)"
+            )
+
     def create_arrow_schema(self, iceberg_schema: Schema) -> pa.Schema:
         """Convert Iceberg schema to PyArrow schema"""
         if iceberg_schema.schema_id in self._arrow_schema_cache:
@@ -577,6 +594,7 @@ class DataFileManager:
 
         # Convert path for PyArrow (adds bucket prefix for S3)
         arrow_path = self._get_arrow_path(file_path)
+        self._refuse_table_root(file_path, arrow_path)
 
         # Convert records to Arrow table to compute statistics before writing
         lower_bounds = None
@@ -702,6 +720,7 @@ class DataFileManager:
 
         # Convert path for PyArrow (adds bucket prefix for S3)
         arrow_path = self._get_arrow_path(file_path)
+        self._refuse_table_root(file_path, arrow_path)
 
         # Compute column bounds before writing (parity with write_data_file so
         # pandas-written files participate in pruning)
